@@ -14,6 +14,7 @@
 -/
 import RapidProofs.PruneProp
 import RapidProofs.PruneCustom
+import RapidProofs.TranslatedCheckEq
 
 namespace Rapid.C01
 
@@ -75,6 +76,37 @@ theorem reported_failure_is_real_with_custom (e : Env) (hrt : RTPos e) (d : Nat)
     | .failed _ er _ buf => (checkOnce p (.buf buf) TS.fresh).err = some er ∧ er.isInvalid = false
     | _ => True :=
   verdict_of_doCheck p (pruneStable_of_property_with_custom e hrt d p hp hbg) checks seed files early cands
+
+/-! ### `doCheck` of engine.go, translated from /repo on every run -/
+
+/-- **the source's `doCheck` hands back the model's `doCheck`**: for every property, set of fail files (the one named with
+    `-rapid.failfile` first, then what the glob finds), number of checks, base seed, clock of the generation loop and candidate
+    sequence of the shrinker — which fail file wins, that the failing seed is run again on a fresh recording `*T` before
+    anything is minimized, that a different error there ends the run with both errors and the words drawn, that the
+    shrinker starts from that second run — -/
+theorem source_doCheck (E : Go.CEnv) (checks : Nat) (hc : checks < 2 ^ 62) (seed : UInt64) (failfile : String) (globf : Bool)
+    (fuel : Nat) (hl : (Go.failFileNames failfile globf E.found).length < 2 ^ 62)
+    (hfuel : (Go.failFileNames failfile globf E.found).length < fuel) :
+    (Go.CM.run E (Translated.doCheck (Int64.ofNat checks) seed failfile globf fuel) none).1 =
+      .ok (Go.dcOut (Go.failFileNames failfile globf E.found)
+        (doCheck E.p checks seed ((Go.failFileNames failfile globf E.found).map E.file) E.early E.cands)) :=
+  Go.tr_doCheck E checks hc seed failfile globf fuel hl hfuel
+
+/-- so what the *source's* `doCheck` reports replays: when it hands back an error, the words it hands back make the property
+    fail with that error on a fresh `*T`, and the error is not an invalid test case -/
+theorem source_reported_failure_replays (E : Go.CEnv) (hps : PruneStable E.p) (checks : Nat) (hc : checks < 2 ^ 62) (seed : UInt64)
+    (failfile : String) (globf : Bool) (fuel : Nat) (hl : (Go.failFileNames failfile globf E.found).length < 2 ^ 62)
+    (hfuel : (Go.failFileNames failfile globf E.found).length < fuel)
+    (valid invalid : Int64) (early : Bool) (sd : UInt64) (file : String) (buf : List UInt64) (e1 e2 : Option Err)
+    (hrun : (Go.CM.run E (Translated.doCheck (Int64.ofNat checks) seed failfile globf fuel) none).1 =
+      .ok (valid, invalid, early, sd, file, buf, e1, e2))
+    (herr : e1.isSome ∨ e2.isSome) :
+    tbKey e1 = tbKey e2 ∧ e2 = (checkOnce E.p (.buf buf) TS.fresh).err ∧ ∃ e, e2 = some e ∧ e.isInvalid = false := by
+  rw [source_doCheck E checks hc seed failfile globf fuel hl hfuel] at hrun
+  simp only [Go.dcOut, Except.ok.injEq, Prod.mk.injEq] at hrun
+  obtain ⟨-, -, -, -, -, hb, h1, h2⟩ := hrun
+  subst hb h1 h2
+  exact reported_failure_replays E.p hps checks seed _ E.early E.cands herr
 
 /-- properties that fail only fatally (Fatal*/FailNow/panic) satisfy `BodyGood` -/
 theorem bodyGood_of_fatal_only (p : Prog) (hp : TsPure p) (hfuel : ∀ src, (p.run src TS.fresh).res ≠ .error .fuel) :
